@@ -51,7 +51,8 @@ func classify(typ int) *classObs {
 		o.ts = m != nil && m.SentAt != ""
 		if m != nil {
 			o.htype = m.MessageType
-			m.ErrorMessage = "" // look at the dispatch, not at the time-line error
+			// the message goes to Analyse as the handler delivered it - SBAS, QZSS and NavIC MSMs
+			// carry a time-line error text, and are decoded all the same
 		}
 	} else {
 		m = &handler.Message{MessageType: typ, RawData: []byte{1, 2, 3}}
